@@ -132,7 +132,7 @@ def large_copyright_texts(rng, quick=True):
         out.append(t)
         out.append(t.rstrip('\r\n'))       # the same without a final line end
     head = 'Format: https://www.debian.org/doc/packaging-manuals/copyright-format/1.0/\n\n'
-    longline = ' '.join('w%d' % i for i in range(14000))       # about 80 KB in one line
+    longline = ' '.join('w%d' % i for i in range(33000))       # about 210 KB in one line: whole blocks of 64 KiB inside it
     out.append(head + 'Files: *\nCopyright: 2019 x\nLicense: MIT\n first\n ' + longline + '\n last\n')
     pad = 'Files: a\nCopyright: 2019 y\nLicense: X\n' + '\n'.join(' filler line %d' % i for i in range(3000))
     pad = pad[:65536 - len(head) - 40]
